@@ -72,7 +72,21 @@ func LoadCCache(cpath string) (*CCache, error) {
 }
 
 // Unmarshal a byte slice of credential cache data into CCache type.
-func (c *CCache) Unmarshal(b []byte) error {
+func (c *CCache) Unmarshal(b []byte) (err error) {
+	// The readers below signal truncated or inconsistent input by panicking with a ccacheError,
+	// which is turned into the returned error here.
+	defer func() {
+		if r := recover(); r != nil {
+			if e, ok := r.(ccacheError); ok {
+				err = e
+				return
+			}
+			panic(r)
+		}
+	}()
+	if len(b) < 2 {
+		return errors.New("Invalid credential cache data. Less than 2 bytes")
+	}
 	p := 0
 	//The first byte of the file always has the value 5
 	if int8(b[p]) != 5 {
@@ -93,7 +107,7 @@ func (c *CCache) Unmarshal(b []byte) error {
 		endian = binary.LittleEndian
 	}
 	if c.Version == 4 {
-		err := parseHeader(b, &p, c, &endian)
+		err = parseHeader(b, &p, c, &endian)
 		if err != nil {
 			return err
 		}
@@ -119,8 +133,7 @@ func parseHeader(b []byte, p *int, c *CCache, e *binary.ByteOrder) error {
 		f := headerField{}
 		f.tag = uint16(readInt16(b, p, e))
 		f.length = uint16(readInt16(b, p, e))
-		f.value = b[*p : *p+int(f.length)]
-		*p += int(f.length)
+		f.value = readBytes(b, p, int(f.length), e)
 		if !f.valid() {
 			return errors.New("Invalid credential cache header found")
 		}
@@ -143,6 +156,7 @@ func parsePrincipal(b []byte, p *int, c *CCache, e *binary.ByteOrder) (princ pri
 	}
 	lenRealm := readInt32(b, p, e)
 	princ.Realm = string(readBytes(b, p, int(lenRealm), e))
+	checkCount(b, p, nc)
 	for i := 0; i < nc; i++ {
 		l := readInt32(b, p, e)
 		princ.PrincipalName.NameString = append(princ.PrincipalName.NameString, string(readBytes(b, p, int(l), e)))
@@ -174,11 +188,13 @@ func parseCredential(b []byte, p *int, c *CCache, e *binary.ByteOrder) (cred *Cr
 	cred.TicketFlags = types.NewKrbFlags()
 	cred.TicketFlags.Bytes = readBytes(b, p, 4, e)
 	l := int(readInt32(b, p, e))
+	checkCount(b, p, l)
 	cred.Addresses = make([]types.HostAddress, l, l)
 	for i := range cred.Addresses {
 		cred.Addresses[i] = readAddress(b, p, e)
 	}
 	l = int(readInt32(b, p, e))
+	checkCount(b, p, l)
 	cred.AuthData = make([]types.AuthorizationDataEntry, l, l)
 	for i := range cred.AuthData {
 		cred.AuthData[i] = readAuthDataEntry(b, p, e)
@@ -284,7 +300,28 @@ func readTimestamp(b []byte, p *int, e *binary.ByteOrder) time.Time {
 }
 
 // Read bytes representing an eight bit integer.
+// ccacheError is the panic value the readers use for truncated or inconsistent input.
+type ccacheError string
+
+func (e ccacheError) Error() string { return string(e) }
+
+// need panics with a ccacheError unless n more bytes are available at position *p.
+func need(b []byte, p *int, n int) {
+	if n < 0 || *p < 0 || *p > len(b) || n > len(b)-*p {
+		panic(ccacheError("Invalid credential cache data. Truncated or inconsistent length"))
+	}
+}
+
+// checkCount panics with a ccacheError if a count of entries cannot fit in the remaining bytes
+// (every entry takes at least one byte), before anything is allocated for it.
+func checkCount(b []byte, p *int, n int) {
+	if n < 0 || n > len(b)-*p {
+		panic(ccacheError("Invalid credential cache data. Count is negative or exceeds the data"))
+	}
+}
+
 func readInt8(b []byte, p *int, e *binary.ByteOrder) (i int8) {
+	need(b, p, 1)
 	buf := bytes.NewBuffer(b[*p : *p+1])
 	binary.Read(buf, *e, &i)
 	*p++
@@ -293,6 +330,7 @@ func readInt8(b []byte, p *int, e *binary.ByteOrder) (i int8) {
 
 // Read bytes representing a sixteen bit integer.
 func readInt16(b []byte, p *int, e *binary.ByteOrder) (i int16) {
+	need(b, p, 2)
 	buf := bytes.NewBuffer(b[*p : *p+2])
 	binary.Read(buf, *e, &i)
 	*p += 2
@@ -301,6 +339,7 @@ func readInt16(b []byte, p *int, e *binary.ByteOrder) (i int16) {
 
 // Read bytes representing a thirty two bit integer.
 func readInt32(b []byte, p *int, e *binary.ByteOrder) (i int32) {
+	need(b, p, 4)
 	buf := bytes.NewBuffer(b[*p : *p+4])
 	binary.Read(buf, *e, &i)
 	*p += 4
@@ -308,6 +347,7 @@ func readInt32(b []byte, p *int, e *binary.ByteOrder) (i int32) {
 }
 
 func readBytes(b []byte, p *int, s int, e *binary.ByteOrder) []byte {
+	need(b, p, s)
 	buf := bytes.NewBuffer(b[*p : *p+s])
 	r := make([]byte, s)
 	binary.Read(buf, *e, &r)
